@@ -131,6 +131,9 @@ def run_table(p, amts):
         cls.register_converter(TableConverter(rows[:1]))
         cls.register_converter(TableConverter({(r[0], r[1]): (r[2], r[3])
                                                for r in rows[1:]}))
+    elif form == 'gen':        # an Iterable that can be walked only once
+        conv = TableConverter(r for r in rows)
+        cls.register_converter(conv)
     else:
         conv = TableConverter(rows)
         cls.register_converter(conv)
@@ -408,7 +411,7 @@ def run(tier, seed):
         if k not in seen:
             seen.add(k)
             uniq.append(t)
-    parts = [(t, form) for t in uniq for form in ('mapping', 'list')]
+    parts = [(t, form) for t in uniq for form in ('mapping', 'list', 'gen')]
     parts += [(t, 'two') for t in uniq if len(t) >= 2]
     uamts = ['i:0', 'i:7', 'D:-2.5', 'F:1/3', 'i:32', 'D:0.1', 'F:-1/3']
     total.merge(pmap(run_table, parts, (uamts,), fresh=True))
